@@ -342,7 +342,8 @@ func (e *e4Env) settle(maxWait time.Duration, needAcks bool) (bool, bool) {
 		}
 		if a := e.activity(); a != lastAct {
 			lastAct, lastChange = a, time.Now()
-		} else if time.Since(lastChange) > e4StuckAfter {
+		} else if time.Since(lastChange) > e4StuckAfter+e.quietAllowance() {
+			// (with a keep-alive interval of whole seconds the client is legitimately quiet for that long between pings)
 			return false, true
 		}
 		if time.Now().After(deadline) {
@@ -357,6 +358,15 @@ func (e *e4Env) settle(maxWait time.Duration, needAcks bool) (bool, bool) {
 }
 
 var e4StuckAfter = 3 * time.Second
+
+// quietAllowance: cases that depend on a keep-alive interval of one or two whole seconds (interval taken from the CONNECT
+// option) are legitimately quiet for that long between pings; the idle detector waits two intervals longer there.
+func (e *e4Env) quietAllowance() time.Duration {
+	if k := e.c.Cfg.KeepAliveS; k > 0 && k <= 2 && e.c.Cfg.PingMs == 0 {
+		return 2 * time.Duration(k) * time.Second
+	}
+	return 0
+}
 
 // e4HangAfter: a case whose runner is blocked inside the client (every public call of the client is made from
 // the runner's goroutine) while nothing at all happens anywhere - no packet, no dial, no callback - for this long
